@@ -1249,9 +1249,20 @@ public:
               }
             }
           }
-        } else {
+        } else if (std::none_of(cst.expression().variables_begin(),
+                                cst.expression().variables_end(),
+                                [](const variable_t &v) {
+                                  return v.get_type().is_bool();
+                                })) {
           // numerical component
           non_boolean_csts += cst;
+        } else {
+          // A constraint over boolean variables that we cannot
+          // translate to the boolean component is ignored. It must
+          // not be added to the numerical component: the boolean
+          // transfer functions do not update that component, so the
+          // constraint would still be there after the boolean
+          // variable is redefined.
         }
       }
       m_product.second() += non_boolean_csts;
